@@ -52,17 +52,28 @@ var driverPath = "/verif/lean/.lake/build/bin/driver"
 
 // runDriver feeds the lines to `driver <suite>` and returns one output line per input line.
 func runDriver(suite string, lines []string) ([]string, error) {
-	cmd := exec.Command(driverPath, suite)
-	var in bytes.Buffer
-	for _, l := range lines {
-		in.WriteString(l)
-		in.WriteByte('\n')
-	}
-	cmd.Stdin = &in
 	var out, errb bytes.Buffer
-	cmd.Stdout = &out
-	cmd.Stderr = &errb
-	if err := cmd.Run(); err != nil {
+	for attempt := 0; ; attempt++ {
+		cmd := exec.Command(driverPath, suite)
+		var in bytes.Buffer
+		for _, l := range lines {
+			in.WriteString(l)
+			in.WriteByte('\n')
+		}
+		cmd.Stdin = &in
+		out.Reset()
+		errb.Reset()
+		cmd.Stdout = &out
+		cmd.Stderr = &errb
+		err := cmd.Run()
+		if err == nil {
+			break
+		}
+		// the driver executable is replaced when another check relinks it: not there or busy for a moment
+		if _, statErr := os.Stat(driverPath); (statErr != nil || strings.Contains(err.Error(), "text file busy") || strings.Contains(err.Error(), "no such file")) && attempt < 30 {
+			time.Sleep(time.Second)
+			continue
+		}
 		return nil, fmt.Errorf("driver %s: %v: %s", suite, err, errb.String())
 	}
 	var res []string
